@@ -40,3 +40,25 @@ CONTRACTS = [
              notes="values are opaque: nothing is known about their type or truth value, so False / 0 / '' / [] are covered",
              props=["C19", "C18"], symbolic_only=True),
 ]
+
+# a list-valued entry of the configuration file (account numbers): every spelling of the separators gives the same items.
+# str.split on a symbolic text is outside the engine: decided by enumeration of EVERY text of up to 6 characters over
+# blank, comma and two item characters (5461 texts) - exhaustive for that bound, labelled bounded
+import itertools as _it
+
+
+class _Txt(Arg):
+    def __init__(self, name):
+        self.name = name
+
+
+def _all_texts(tier):
+    n = 7 if tier == "thorough" else 6
+    return [["".join(w)] for k in range(n + 1) for w in _it.product(" ,a1", repeat=k)]
+
+
+CONTRACTS.append(
+    Contract("ofxtools.scripts.ofxget:convert_list", args=[_Txt("string")],
+             ensures=[("the-items-between-the-commas-without-surrounding-blanks", "result == spec.ofxget.list_items(string)")],
+             cases=_all_texts, native_only=True, shards=4,
+             notes="every text of up to 6 characters (7 in thorough) over blank, comma and two item characters", props=["C19", "C18"]))
